@@ -4,7 +4,7 @@ from __future__ import annotations
 
 import ast
 
-from .loader import PKG, Cls, Func, Program, dotted, walk_own
+from .loader import PKG, Cls, Func, Program, dotted, expand, walk_own
 
 TASK_SPAWNERS = {
     "aiohomekit.utils.async_create_task",
@@ -146,6 +146,9 @@ class Resolver:
                     continue
                 if isinstance(val, ast.Constant) and val.value is None:
                     ao[tgt.attr] = True
+                if isinstance(val, (ast.Name, ast.Call)) and not isinstance(f.node, ast.Lambda):
+                    # look through temporaries: `t = self.coro(); self.attr = spawn(t)`
+                    val = expand(f.node, val)
                 if isinstance(val, ast.Name) and not isinstance(f.node, ast.Lambda):
                     # self.attr = <annotated parameter>
                     a = f.node.args
